@@ -16,7 +16,7 @@ from typing import Dict, List, Tuple
 
 from ..mainmodel import Outcome, World, parse_human, parse_json, plan_of, run_main
 from ..minieval import ClassRef, Obj, Unsupported
-from ..model import AnalysisError, text
+from ..model import AnalysisError, Undecided, text
 from ..xeval import Raised, XEvaluator, Module
 
 LEVELS = ("Error", "Notice")
@@ -112,7 +112,7 @@ def rule_status(run, prog):
                 if (res != want or len(levels) != k) and bad is None:
                     bad = ([f"{f}:{l}" for f, l in forms], levels, res, want)
     except Unsupported as e:
-        raise AnalysisError(f"class Errors is outside the evaluable subset: {e}")
+        raise Undecided(f"class Errors is outside the evaluable subset: {e}")
     run.ob("R-4.1", f"{st.key}::predicate", bad is None,
            (f"Errors.status is not 'some stored diagnostic has level Error': after add calls {bad[0]} the stored levels are "
             f"{bad[1]} but status is {bad[2]!r} (expected {bad[3]!r})") if bad else "status predicate", st.node, evaluations=n_eval)
@@ -189,7 +189,7 @@ def formatter_verdict_source(prog, cname) -> Tuple[bool, str, int]:
                         if lit in out:
                             return False, f"verdict literal {lit!r} printed by the formatter itself", n
     except Unsupported as e:
-        raise AnalysisError(f"formatter {cname} is outside the evaluable subset: {e}")
+        raise Undecided(f"formatter {cname} is outside the evaluable subset: {e}")
     return True, "", n
 
 
@@ -224,7 +224,7 @@ class Runs:
             o = run_main(self.prog, tree if tree is not None else dict(FILES), cli, ignored=ignored)
             self.n += 1
             if o.unsupported:
-                raise AnalysisError(f"__main__ is outside the evaluable subset: {o.unsupported} (command line {cli})")
+                raise Undecided(f"__main__ is outside the evaluable subset: {o.unsupported} (command line {cli})")
             self.cache[key] = o
         return self.cache[key]
 
